@@ -87,6 +87,8 @@ impl DecoderWork {
 
             self.original_received_count += 1;
             self.received.set(pos, true);
+            #[cfg(verif_shuttle)]
+            crate::verif::sched_point();
             Ok(())
         }
     }
@@ -119,6 +121,8 @@ impl DecoderWork {
 
             self.recovery_received_count += 1;
             self.received.set(pos, true);
+            #[cfg(verif_shuttle)]
+            crate::verif::sched_point();
             Ok(())
         }
     }
